@@ -36,6 +36,8 @@ def _q(v):
 
 
 class Fn:
+    checking = False            # True while the assertion-check function is generated (returns become `true`, an assert a test)
+    has_asserts = False
     def __init__(self, node, known):
         self.node, self.known = node, known
         self.zvars = set()          # locals that hold integers manipulated with |=
@@ -48,6 +50,8 @@ class Fn:
                 self.zvars.add(n.target.id)
             if isinstance(n, (ast.For, ast.While, ast.Try, ast.With, ast.Lambda, ast.ListComp, ast.Raise, ast.Global, ast.Nonlocal, ast.Yield)):
                 raise Unsupported("%s at line %d" % (type(n).__name__, n.lineno))
+            if isinstance(n, ast.Assert):
+                self.has_asserts = True
 
     # ---------------------------------------------------------------- expressions
     def z(self, e):
@@ -143,9 +147,18 @@ class Fn:
         if isinstance(s, ast.AnnAssign) and s.value is not None and isinstance(s.target, ast.Name):
             s2 = ast.Assign(targets=[s.target], value=s.value); ast.copy_location(s2, s); ast.fix_missing_locations(s2)
             return self.block([s2] + rest)
+        if isinstance(s, ast.Assert):
+            # an assertion is not part of the value; that it can never fire is a proof obligation of its own (t_<name>__asserts, below)
+            if self.assert_is_type_test(s.test):
+                return self.block(rest)
+            if not self.checking:
+                return self.block(rest)
+            return "(if %s then %s else false)" % (self.expr(s.test), self.block(rest))
         if isinstance(s, ast.Return):
             if s.value is None:
                 raise Unsupported("bare return at line %d" % s.lineno)
+            if self.checking:
+                return "true"
             return self.expr(s.value) if not (isinstance(s.value, ast.Name) and s.value.id in self.zvars) else s.value.id
         if isinstance(s, ast.Assign) and len(s.targets) == 1:
             t = s.targets[0]
@@ -162,6 +175,13 @@ class Fn:
                     if rest:
                         raise Unsupported("code after an if/else that always returns, line %d" % s.lineno)
                     return "(if %s then %s else %s)" % (c, self.block(s.body), self.block(s.orelse))
+                if not any(isinstance(n, (ast.Return, ast.AugAssign)) for n in ast.walk(s)) and not self.zvars:
+                    # if / elif / else that only binds locals: a simultaneous conditional update of all of them
+                    vars_ = sorted({n.targets[0].id for n in ast.walk(s) if isinstance(n, ast.Assign) and len(n.targets) == 1 and isinstance(n.targets[0], ast.Name)})
+                    if vars_ and not any(isinstance(n, ast.Assign) and not (len(n.targets) == 1 and isinstance(n.targets[0], ast.Name)) for n in ast.walk(s)):
+                        pat = "'(%s)" % ", ".join(vars_) if len(vars_) > 1 else vars_[0]
+                        val = "(if %s then %s else %s)" % (c, self.multi_update(s.body, vars_), self.multi_update(s.orelse, vars_))
+                        return "let %s := %s in\n  %s" % (pat, val, self.block(rest))
                 raise Unsupported("if/else that does not return on both sides at line %d" % s.lineno)
             if body_returns:
                 return "(if %s then %s else %s)" % (c, self.block(s.body), self.block(rest))
@@ -178,6 +198,22 @@ class Fn:
                     raise Unsupported("statement inside a non-returning if at line %d" % a.lineno)
             return out + self.block(rest)
         raise Unsupported("%s at line %d" % (type(s).__name__, s.lineno))
+
+    def assert_is_type_test(self, t):
+        """isinstance(<integer-valued local>, int) [and ...]: true by construction in the integer mode; anything else is a real test"""
+        return False
+
+    def multi_update(self, stmts, vars_):
+        """the tuple of `vars_` after the non-returning statements `stmts` (assignments and nested if / elif / else)"""
+        if not stmts:
+            return "(%s)" % ", ".join(vars_) if len(vars_) > 1 else vars_[0]
+        s, rest = stmts[0], stmts[1:]
+        if isinstance(s, ast.Assign) and len(s.targets) == 1 and isinstance(s.targets[0], ast.Name):
+            return "let %s := %s in %s" % (s.targets[0].id, self.value(s.targets[0].id, s.value), self.multi_update(rest, vars_))
+        if isinstance(s, ast.If):
+            pat = "'(%s)" % ", ".join(vars_) if len(vars_) > 1 else vars_[0]
+            return "let %s := (if %s then %s else %s) in %s" % (pat, self.expr(s.test), self.multi_update(s.body, vars_), self.multi_update(s.orelse, vars_), self.multi_update(rest, vars_))
+        raise Unsupported("%s inside a conditional update at line %d" % (type(s).__name__, s.lineno))
 
     def returns(self, stmts):
         """does every path through stmts end in return?"""
@@ -197,11 +233,27 @@ class Fn:
             raise Unsupported("argument form of %s" % n.name)
         names = [x.arg for x in a.args]
         out = "Definition t_%s %s :=\n  %s." % (n.name, " ".join(names), self.block(n.body))
+        out += self.assert_obligation(names)
         for arg, d in zip(names[len(names) - len(a.defaults):], a.defaults):      # default argument values, as constants of their own
             if not (isinstance(d, ast.Constant) and isinstance(d.value, (int, float)) and not isinstance(d.value, bool)):
                 raise Unsupported("default value of %s in %s" % (arg, n.name))
             out += "\nDefinition t_%s_default_%s := %s." % (n.name, arg, _q(d.value))
         return out
+
+
+def _assert_obligation(self, names):
+    """the assertions of the function never fire: a boolean function that is false exactly on the paths where one would, proved constantly true"""
+    if not self.has_asserts:
+        return ""
+    self.checking = True
+    try:
+        body = self.block(self.node.body)
+    finally:
+        self.checking = False
+    nm = self.node.name
+    return ("\nDefinition t_%s__asserts %s :=\n  %s.\nLemma t_%s__asserts_hold : forall %s, t_%s__asserts %s = true.\nProof. kernel_assert t_%s__asserts. Qed."
+            % (nm, " ".join(names), body, nm, " ".join(names), nm, " ".join(names), nm))
+Fn.assert_obligation = _assert_obligation
 
 
 class FnZQ(Fn):
@@ -225,7 +277,16 @@ class FnZQ(Fn):
         for d in n.args.defaults:
             if not (isinstance(d, ast.Constant) and d.value == "clear"):
                 raise Unsupported("default value in %s" % n.name)
-        return "Definition t_%s %s :=\n  %s." % (n.name, " ".join(names), self.block(n.body))
+        out = "Definition t_%s %s :=\n  %s." % (n.name, " ".join(names), self.block(n.body))
+        if self.has_asserts:
+            self.zenv = set(x.arg for x in n.args.args) - self.optional; self.qenv = set()
+            out += self.assert_obligation(names)
+        return out
+
+    def assert_is_type_test(self, t):
+        parts = t.values if isinstance(t, ast.BoolOp) and isinstance(t.op, ast.And) else [t]
+        return all(isinstance(q, ast.Call) and isinstance(q.func, ast.Name) and q.func.id == "isinstance" and len(q.args) == 2
+                   and isinstance(q.args[0], ast.Name) and q.args[0].id in self.zenv and ast.unparse(q.args[1]) == "int" for q in parts)
 
     def is_clear_test(self, t):
         return isinstance(t, ast.Compare) and len(t.ops) == 1 and isinstance(t.ops[0], ast.Eq) and isinstance(t.left, ast.Name) \
@@ -413,9 +474,15 @@ class FnZQ(Fn):
             return "(" + ", ".join(self.expr(x) for x in e.elts) + ")"
         if isinstance(e, ast.IfExp):
             return "(if %s then %s else %s)" % (self.expr(e.test), self.expr(e.body), self.expr(e.orelse))
+        if isinstance(e, ast.Name) and e.id in getattr(self, "tenv", set()):
+            return e.id
         return self.ez(e) if self.is_z(e) else "(%s)%%Q" % self.eq(e)
 
     def value(self, target, e):
+        if isinstance(e, ast.Tuple):               # a local that holds the result pair
+            term = self.expr(e)
+            self.tenv = getattr(self, "tenv", set()) | {target}; self.zenv.discard(target); self.qenv.discard(target)
+            return term
         if self.is_z(e):
             term = self.ez(e)                      # translated in the environment before the binding
             self.zenv.add(target); self.qenv.discard(target)
